@@ -263,6 +263,11 @@ class G:
                 forms.append(Proc(g, [], None, [], [S(gv)]))
                 forms.append(Proc(f, [gv], None, [], [[S("+"), S(gv), Call(S(g), [])]]))
                 forms += [Call(S(f), [a2]), S(gv)]
+                # ... and the same with the helper called in tail position (directly and behind an if)
+                f2, f3 = self.fresh("sf"), self.fresh("sf")
+                forms.append(Proc(f2, [gv], None, [], [[S(g)]]))
+                forms.append(Proc(f3, [gv], None, [[S("define"), S("kk"), [S("+"), S(gv), 1]]], [[S("if"), [S(">"), S("kk"), 0], [S(g)], 0]]))
+                forms += [[S(f2), a3], [S(f3), a2], S(gv)]
             else:
                 forms.append(a1)
         elif k == 7:
